@@ -19,7 +19,8 @@ RULE = ('Histories on one SvsInst (last_used_seq_num 0..3, 0..2 publications bef
         'virtual time, drawn timer jitter): receive(vector) built '
         'relative to the current local vector - newer / older / incomparable / equal / unknown nodes / own entry above own sequence / '
         'malformed (entry without seq, without node id, truncated TLV, wrong component type, empty) - delivered as a signed sync '
-        'Interest through packet reception or directly to the handler; publish(); advance(dt) with dt in {0, 1 ms, just before / '
+        'Interest through packet reception or directly to the handler; publish(); stop()+start() of the same instance (back to back or '
+        'with the loop running in between); advance(dt) with dt in {0, 1 ms, just before / '
         'exactly at / just after next_sync_timing}. Oracle: model local := entry-wise max(local, v) for every accepted v; never '
         'decreases; over-claiming vector changes nothing; missing-data callback +1 iff the vector raised some entry; publish => own '
         'seq+1 and a sync Interest carrying the full local vector before time advances; a suppression period begins when the library '
@@ -310,6 +311,30 @@ def _run(sim, case, r):
             sup = None
             mstate = 'steady'
             trace.append('p')
+        elif k == 'restart':
+            # the application leaves the sync group and joins again with the same instance (outside suppression periods: whether a
+            # running period survives a restart is not specified)
+            if mstate != 'steady' or inst.state != SvsState.SyncSteady:
+                continue
+            try:
+                if op['gap']:
+                    sim.vl.call(inst.stop)
+                    sim.vl.settle()
+                    sim.vl.call(inst.start, sim.app)
+                else:
+                    def both():      # back to back, without the loop running in between
+                        inst.stop()
+                        inst.start(sim.app)
+                    sim.vl.call(both)
+                sim.vl.settle()
+            except Exception as e:
+                r.bad(f'C18/restart-raised/{exc_site(e)}', repr(e)[:200])
+                return
+            flags.add('restart')
+            if local_now() != nz(model):
+                r.bad('C18/local-vector-changed-by-restart', f'{local_now()} != {model}')
+                return
+            trace.append('T')
         elif k == 'adv':
             now = sim.vl.clock.t
             target = inst.next_sync_timing - svs_sync.time.time() if inst.next_sync_timing else 0
@@ -363,9 +388,10 @@ def _ops():
                                   'via': st.sampled_from(['receive', 'handler']),
                                   'flags': st.sampled_from([[]] * 10 + [['truncated'], ['wrong-type']])})
     publish = st.just({'op': 'publish'})
+    restart = st.fixed_dictionaries({'op': st.just('restart'), 'gap': st.booleans()})
     adv = st.fixed_dictionaries({'op': st.just('adv'), 'how': st.sampled_from(['0', '1ms', 'before', 'at', 'after', 'after'])})
-    free = st.lists(st.one_of(recv, recv, recv, publish, adv, adv), min_size=2, max_size=25)
-    anyop = st.one_of(recv, publish, adv)
+    free = st.lists(st.one_of(recv, recv, recv, recv, publish, publish, adv, adv, adv, restart), min_size=2, max_size=25)
+    anyop = st.one_of(recv, publish, adv, restart)
 
     @st.composite
     def template(draw):
@@ -403,7 +429,10 @@ def _ops():
         core = [{'op': 'publish'}, {'op': 'adv', 'how': '1ms'}, dict(lag),
                 {'op': 'recv', 'entries': everyone, 'via': via, 'flags': []},
                 {'op': 'adv', 'how': 'after'}] + draw(st.lists(adv, max_size=1)) + [dict(lag), {'op': 'adv', 'how': 'after'}]
-        return draw(st.lists(anyop, max_size=2)) + core + draw(st.lists(anyop, max_size=3))
+        pre = draw(st.lists(anyop, max_size=2))
+        if draw(st.booleans()):
+            pre = pre + [{'op': 'restart', 'gap': draw(st.booleans())}]      # ... on an instance that was stopped and started again
+        return pre + core + draw(st.lists(anyop, max_size=3))
     return st.one_of(free, free, free, template(), template2(), template3())
 
 
